@@ -4,7 +4,9 @@ import json, subprocess, os
 HERE = os.path.dirname(os.path.dirname(os.path.abspath(__file__)))
 
 HIST = (" Histories are part of every schedule: faulted deliveries are preceded and followed by the genuine one, sessions reuse keys/objects, "
-        "each run executes in a fresh thread and a violation that needs state from earlier operations is replayed as the whole run.")
+        "each run executes in a fresh thread of a worker process and a violation that needs state from earlier operations is replayed as the whole run "
+        "(or as everything its worker process executed before it). Where two library calls are made by two simulated caller threads (`par` op), "
+        "control passes between them only at RNG draws and at std::sync primitives (std facade sim/simstd), in an order that is part of the schedule.")
 
 TRUST = ("Trusted base: the reference models in sim/src/refmodel (validated before every check against the standards' "
          "published examples; exit 2 if a self-test fails), the simulator itself, and sampling of keys/IDs/messages/nonces "
@@ -88,14 +90,14 @@ def main():
         "setup_cmd": "./setup.sh",
         "hooks": {
             "guard": "gm_rs_verif",
-            "enable": "RUSTFLAGS=\"--cfg gm_rs_verif\" (set by ./check and by sim/.cargo/config.toml); the simulator links the five crates as path dependencies on /repo, so every check rebuilds from the working tree",
+            "enable": "RUSTFLAGS=\"--cfg gm_rs_verif\" (set by ./check and by sim/.cargo/config.toml); the simulator links the five crates as path dependencies on /repo, so every check rebuilds from the working tree. In addition, and without any change in /repo, ./check compiles the gm_* crates with --extern std=sim/simstd (RUSTC_WRAPPER=sim/rustc-wrapper.sh): std with scheduling points at std::sync primitives",
             "baseline_off_cmd": "cd /repo && cargo test --workspace --no-fail-fast --offline --lib --tests",
             "source_commits": hook_shas,
             "add_only": True,
         },
         "engines": [{
             "name": "gmsim", "path": "/verif/sim", "serves_properties": sorted(claimed),
-            "kind_free_text": "deterministic simulator: one PRNG (VERIF_SEED) decides sessions, inputs, interleaving, RNG candidates and faults; world of byte slots (transport/storage) + stateful objects; reference-model peers; replay files are explicit schedules; greedy schedule minimisation"
+            "kind_free_text": "deterministic simulator: one PRNG (VERIF_SEED) decides sessions, inputs, interleaving, RNG candidates, faults and thread switches; world of byte slots (transport/storage) + stateful objects; reference-model peers; simulated caller threads (one runnable at a time, scheduling points at the RNG seam and at std::sync primitives through a std facade crate); simulated process environment (clock, pid) for fresh-process comparison; worker processes; replay files are explicit schedules; greedy schedule minimisation"
         }],
         "checks": checks,
         "not_applicable": sorted(na, key=lambda x: x["property_id"]),
